@@ -50,25 +50,38 @@ def _branches(fn):
 
 def _empty_is_not_full(ctx, rep):
     """The buffer position `_start` distinguishes an empty ring (`_start` = length of the list) from a full one
-    (`_start` = length - ring size); the two are congruent modulo the ring size.  A value that is stored into
-    `_start` must therefore never have been reduced modulo the ring size (only the *reported* start/stop are):
-    on the pinned tree ring_set_boundaries did that, and POKE 1050, PEEK(1052) -- an empty window -- produced a
-    full buffer of stale keys (repaired in /repo 7666cf4c)."""
+    (`_start` = length - ring size); the two are congruent modulo the ring size.  ring_set_boundaries brings the
+    position into the ring (modulo) *before* it rotates the buffer and adds the rotation shift; the sum ring
+    size - length must then be stored as it is: a reduction after the shift folds the empty window (sum = ring
+    size) onto 0, a full buffer -- on the pinned tree POKE 1050, PEEK(1052) therefore re-delivered the old keys
+    (repaired in /repo 7666cf4c, 47d75d15).  Elsewhere no reduced value is stored into `_start` at all."""
     cls = ctx.cls(KB + ':KeyboardBuffer')
     n = 0
+
+    def is_reduction(a):
+        return any(isinstance(b, ast.BinOp) and isinstance(b.op, ast.Mod) and 'ring_length' in norm(b.right) for b in ast.walk(a.value)) or \
+            (isinstance(a, ast.AugAssign) and isinstance(a.op, ast.Mod))
     for m in class_methods(cls).values():
-        stores = [a for a in own_nodes(m) if isinstance(a, (ast.Assign, ast.AugAssign)) and norm(a.targets[0] if isinstance(a, ast.Assign) else a.target) == 'self._start']
+        stores = [a for a in m.body if isinstance(a, (ast.Assign, ast.AugAssign)) and norm(a.targets[0] if isinstance(a, ast.Assign) else a.target) == 'self._start']
         for st in stores:
             n += 1
-            feeding = set(x.id for x in ast.walk(st.value) if isinstance(x, ast.Name))
-            reduced = [a for a in own_nodes(m) if isinstance(a, (ast.Assign, ast.AugAssign))
-                       and norm(a.targets[0] if isinstance(a, ast.Assign) else a.target) in feeding | {'self._start'}
-                       and any(isinstance(b, ast.BinOp) and isinstance(b.op, ast.Mod) and 'ring_length' in norm(b.right) for b in ast.walk(a.value))]
-            if isinstance(st, ast.AugAssign) and isinstance(st.op, ast.Mod):
-                reduced.append(st)
-            rep.ob('ring.empty-not-folded-onto-full', 'KeyboardBuffer.%s: the position stored into _start is not reduced modulo the ring size' % m.name, not reduced,
-                   'reduced by %s: an empty window (position = ring size) becomes a full buffer' % [short(r, 40) for r in reduced], ctx.where(st))
-    rep.floor('ring.empty-not-folded-onto-full', n, 3, 'stores to _start')
+            feeding = [x.id for x in ast.walk(st.value) if isinstance(x, ast.Name)]
+            ok, why = not is_reduction(st), 'the stored value is reduced modulo the ring size'
+            for name in feeding:
+                # straight-line updates of the local before the store (loops that only re-align the position excluded)
+                ups = [a for a in m.body[:m.body.index(st)] if isinstance(a, (ast.Assign, ast.AugAssign))
+                       and norm(a.targets[0] if isinstance(a, ast.Assign) else a.target) == name]
+                if ups and is_reduction(ups[-1]):
+                    ok, why = False, 'the last update of `%s` before the store is a reduction modulo the ring size (%s)' % (name, short(ups[-1], 40))
+            rep.ob('ring.empty-not-folded-onto-full', 'KeyboardBuffer.%s: the position stored into _start is not reduced modulo the ring size after it was computed' % m.name,
+                   ok, why + ': an empty window (position = ring size) becomes a full buffer', ctx.where(st))
+    rep.floor('ring.empty-not-folded-onto-full', n, 2, 'stores to _start')
+    rsb = class_methods(cls)['ring_set_boundaries']
+    order = [('mod' if is_reduction(a) else 'shift' if 'shift' in norm(a.value) else None) for a in rsb.body
+             if isinstance(a, (ast.Assign, ast.AugAssign)) and norm(a.targets[0] if isinstance(a, ast.Assign) else a.target) == 'start']
+    order = [o for o in order if o]
+    rep.ob('ring.position-in-ring-before-rotation', 'ring_set_boundaries brings the position into the ring before the rotation, and only then adds the shift',
+           order == ['mod', 'shift'], repr(order) + ': a window opened from an empty buffer is rotated with a position outside the ring and stays empty', ctx.where(rsb))
     em = class_methods(cls)['empty']
     rets = [norm(r.value) for r in own_nodes(em) if isinstance(r, ast.Return)]
     rep.ob('ring.empty-definition', 'the buffer is empty iff the position has reached the end of the list', rets == ['self._start >= len(self._buffer)'], repr(rets), ctx.where(em))
@@ -184,7 +197,9 @@ def variants(ctx):
 
     return [
         Va('empty-window-folded-onto-full', 'break', KB,
-           in_fn('KeyboardBuffer.ring_set_boundaries', lambda fn: mu.insert_before(fn, mu.stmt_has('start % self._ring_length != newstart', ast.While), 'start = start % self._ring_length')), expect='ring.empty-not-folded'),
+           in_fn('KeyboardBuffer.ring_set_boundaries', lambda fn: mu.insert_before(fn, mu.stmt_has('start % self._ring_length != newstart', ast.While), 'start = start % self._ring_length')), expect='ring.'),
+        Va('position-not-brought-into-ring', 'break', KB,
+           in_fn('KeyboardBuffer.ring_set_boundaries', lambda fn: mu.remove_stmt(fn, mu.text_is('start = start % self._ring_length'))), expect='ring.position-in-ring'),
         Va('limit-restored-into-misspelt-field', 'break', KB,
            in_fn('KeyboardBuffer.ignore_limit', lambda fn: mu.replace_stmt(fn, mu.text_is('self._check_full = save'), 'self.check_full = save')), expect='fields.no-write-only'),
         Va('ring-32', 'break', KB, in_fn('Keyboard.__init__', lambda fn: mu.replace_expr(fn, mu.text_is('KeyboardBuffer(queues, 16, check_full)'), 'KeyboardBuffer(queues, 32, check_full)')), expect='capacity.ring'),
